@@ -175,7 +175,182 @@ func init() {
 		} else {
 			e.fail("NewPodGroupManager not found")
 		}
+		sort.Strings(wired) // the order in which the two literals are written does not matter
 		fmt.Fprintf(&e.out, "def informerWiring : List String := %s\n", lst(wired))
+
+		// ---- what is REGISTERED on each informer: the handler argument of every ForceSyncFromInformer / AddEventHandler*
+		// call of NewPodGroupManager, resolved through a local `name := expr` definition: "direct" = a
+		// cache.ResourceEventHandlerFuncs literal handed over as is, "filtered" = a cache.FilteringResourceEventHandler,
+		// "call:F" = the result of F(...), "other" ----
+		var regs []string
+		if fd := e.funcDecl(core, "", "NewPodGroupManager"); fd != nil && fd.Body != nil {
+			defs := map[string]ast.Expr{}
+			ast.Inspect(fd.Body, func(x ast.Node) bool {
+				switch v := x.(type) {
+				case *ast.AssignStmt:
+					if len(v.Lhs) == len(v.Rhs) {
+						for i, l := range v.Lhs {
+							if id, ok := l.(*ast.Ident); ok {
+								defs[id.Name] = v.Rhs[i]
+							}
+						}
+					}
+				case *ast.ValueSpec:
+					if len(v.Names) == len(v.Values) {
+						for i, id := range v.Names {
+							defs[id.Name] = v.Values[i]
+						}
+					}
+				}
+				return true
+			})
+			var classify func(x ast.Expr, depth int) string
+			classify = func(x ast.Expr, depth int) string {
+				switch v := x.(type) {
+				case *ast.ParenExpr:
+					return classify(v.X, depth)
+				case *ast.UnaryExpr:
+					if v.Op == token.AND {
+						return classify(v.X, depth)
+					}
+				case *ast.Ident:
+					if d, ok := defs[v.Name]; ok && depth < 4 {
+						return classify(d, depth+1)
+					}
+				case *ast.CompositeLit:
+					if s, ok := v.Type.(*ast.SelectorExpr); ok {
+						switch s.Sel.Name {
+						case "ResourceEventHandlerFuncs":
+							return "direct"
+						case "FilteringResourceEventHandler":
+							return "filtered"
+						}
+						return "lit:" + s.Sel.Name
+					}
+				case *ast.CallExpr:
+					switch f := v.Fun.(type) {
+					case *ast.SelectorExpr:
+						return "call:" + f.Sel.Name
+					case *ast.Ident:
+						return "call:" + f.Name
+					}
+				}
+				return "other"
+			}
+			informerName := func(x ast.Expr) string {
+				// podInformer.Informer()  ->  podInformer
+				if c, ok := x.(*ast.CallExpr); ok {
+					if s, ok := c.Fun.(*ast.SelectorExpr); ok {
+						if id, ok := s.X.(*ast.Ident); ok {
+							return id.Name
+						}
+					}
+				}
+				if id, ok := x.(*ast.Ident); ok {
+					return id.Name
+				}
+				return "?"
+			}
+			ast.Inspect(fd.Body, func(x ast.Node) bool {
+				c, ok := x.(*ast.CallExpr)
+				if !ok {
+					return true
+				}
+				s, ok := c.Fun.(*ast.SelectorExpr)
+				if !ok {
+					return true
+				}
+				switch s.Sel.Name {
+				case "ForceSyncFromInformer", "ForceSyncFromInformerWithReplace":
+					if len(c.Args) >= 4 {
+						regs = append(regs, fmt.Sprintf("(%s, %s)", leanStr(informerName(c.Args[2])), leanStr(classify(c.Args[3], 0))))
+					}
+				case "AddEventHandler", "AddEventHandlerWithResyncPeriod", "AddEventHandlerWithOptions":
+					if len(c.Args) >= 1 {
+						regs = append(regs, fmt.Sprintf("(%s, %s)", leanStr(informerName(s.X)), leanStr(classify(c.Args[0], 0))))
+					}
+				}
+				return true
+			})
+		}
+		sort.Strings(regs) // by informer name: the order of the registrations does not matter
+		fmt.Fprintf(&e.out, "def handlerRegistrations : List (String × String) := [%s]\n", strings.Join(regs, ", "))
+
+		// ---- gang_cache.go getGangFromCacheByGangId: get-or-create must be ONE critical section of the cache lock that
+		// contains the lookup AND the store: (write Locks, read RLocks, deferred unlocks, explicit unlocks, whether
+		// gangItems is mentioned before the first Lock or NewGang is called before it) ----
+		if fd := e.funcDecl(core, "GangCache", "getGangFromCacheByGangId"); fd != nil && fd.Body != nil {
+			wl, rl, deferred, explicit := 0, 0, 0, 0
+			firstLock, firstTouch := token.NoPos, token.NoPos
+			stores, lookups := 0, 0
+			deferredCalls := map[*ast.CallExpr]bool{}
+			isCacheLock := func(c *ast.CallExpr, names ...string) bool {
+				s, ok := c.Fun.(*ast.SelectorExpr)
+				if !ok {
+					return false
+				}
+				l, ok := s.X.(*ast.SelectorExpr)
+				if !ok || l.Sel.Name != "lock" {
+					return false
+				}
+				for _, n := range names {
+					if s.Sel.Name == n {
+						return true
+					}
+				}
+				return false
+			}
+			storeIdx := map[*ast.IndexExpr]bool{}
+			ast.Inspect(fd.Body, func(x ast.Node) bool {
+				switch v := x.(type) {
+				case *ast.DeferStmt:
+					if isCacheLock(v.Call, "Unlock", "RUnlock") {
+						deferred++
+						deferredCalls[v.Call] = true
+					}
+				case *ast.AssignStmt:
+					for _, l := range v.Lhs {
+						if ix, ok := l.(*ast.IndexExpr); ok {
+							if s, ok := ix.X.(*ast.SelectorExpr); ok && s.Sel.Name == "gangItems" {
+								stores++
+								storeIdx[ix] = true
+							}
+						}
+					}
+				case *ast.IndexExpr:
+					if s, ok := v.X.(*ast.SelectorExpr); ok && s.Sel.Name == "gangItems" && !storeIdx[v] {
+						lookups++
+					}
+				case *ast.CallExpr:
+					if isCacheLock(v, "Lock") {
+						wl++
+						if firstLock == token.NoPos {
+							firstLock = v.Pos()
+						}
+					}
+					if isCacheLock(v, "RLock") {
+						rl++
+					}
+					if isCacheLock(v, "Unlock", "RUnlock") && !deferredCalls[v] {
+						explicit++
+					}
+					if id, ok := v.Fun.(*ast.Ident); ok && id.Name == "NewGang" && firstTouch == token.NoPos {
+						firstTouch = v.Pos()
+					}
+				case *ast.SelectorExpr:
+					if v.Sel.Name == "gangItems" && firstTouch == token.NoPos {
+						firstTouch = v.Pos()
+					}
+				}
+				return true
+			})
+			before := firstTouch != token.NoPos && (firstLock == token.NoPos || firstTouch < firstLock)
+			fmt.Fprintf(&e.out, "def getGangLockShape : Nat × Nat × Nat × Nat × Bool := (%d, %d, %d, %d, %v)\n", wl, rl, deferred, explicit, before)
+			fmt.Fprintf(&e.out, "def getGangMapAccess : Nat × Nat := (%d, %d)\n", lookups, stores)
+			fmt.Fprintf(&e.out, "def getGangSections : Nat := %d\n", wl+rl)
+		} else {
+			e.fail("GangCache.getGangFromCacheByGangId not found")
+		}
 
 		// ---- setChild guard ----
 		var guard []string
